@@ -200,10 +200,15 @@ def FNO (S : PSys α) : α :=
 /-- `optic.n()`: `material_post.n` of every surface -/
 def nList (S : PSys α) : List α := S.surfs.map (·.n2)
 
+/-- `(-1)**num_mirrors`: every reflecting surface reverses the sign of the index for the light behind it -/
+def mirrorSign (ss : List (PSurf α)) : α :=
+  ss.foldl (fun σ s => if s.refl then Num.neg σ else σ) Num.one
+
+/-- `Paraxial.magnification`: `n[0]*ua[0] / ((-1)**num_mirrors * n[-1] * ua[-1])` -/
 def magnification (S : PSys α) : α :=
   let ua := us (marginalRay S)
   let n := nList S
-  first n * first ua / (last n * last ua)
+  first n * first ua / (mirrorSign S.surfs * last n * last ua)
 
 def deg2rad (x : α) : α := x * (Num.pi / Num.ofRat 180 1)
 
